@@ -3,14 +3,17 @@
    wal.go      Writer.rotate (file header), AppendRaw / AppendRawWithMeta / Append (entry
                framing: [len32][ts64][crc32][payload], envelope [0x01][dblen16][db][msgpack]),
                writeEntry (size-triggered rotation), ParseEnvelope
-   reader.go   Reader.ReadAll / readEntry (torn header => stop, oversize length => skip and
-               CONTINUE FROM THE CURRENT OFFSET, short payload => skip then EOF, CRC mismatch
-               => skip and continue after the payload, undecodable payload => skip)
+   reader.go   Reader.ReadAll / readEntry (torn header => stop; oversize length or CRC mismatch
+               => errFramingLost: count it and STOP (since commit 591fc4b; before, the loop
+               `continue`d from the current offset - kept below as read_all_old for the
+               necessity example only); short payload => skip then EOF; undecodable payload
+               => skip and go on after the payload)
    recovery.go Recovery.RecoverWithOptions (files in rotation order, unreadable file skipped,
                one callback per entry)
 
    Bytes are N (< 256) in lists.  The constants come from coq/gen/Params_Wal.v, regenerated
-   from the Go source on every run.  CRC-32 (hash/crc32) and the msgpack decoding that
+   from the Go source on every run; the payload size cap is a parameter `maxp` of the model
+   (instantiated with Params_Wal.max_payload, or with the lowered cap of the boundary run).  CRC-32 (hash/crc32) and the msgpack decoding that
    follows the envelope (msgpack library + parseColumnarEntry) are PARAMETERS of the model
    (Section variables): the theorems state what they need from them as hypotheses; the
    correspondence instantiates them with the executable crc32 below / the decoding table
@@ -83,25 +86,22 @@ Inductive kind := KRow | KRowNil | KCol.
    Entry of a row-format payload has no database field), the bytes that were decoded *)
 Record rentry := mkR { r_ts : N; r_kind : kind; r_db : list N; r_data : list N }.
 
-Inductive env_res := EnvPanic | EnvOk (db inner : list N).
+Inductive env_res := EnvOk (db inner : list N).
 
-(* ParseEnvelope(payload, "").  `3+dbLen` is uint16 arithmetic in the Go code: it wraps for
-   dbLen >= 65533, the bounds test then passes and payload[3:3+dbLen] panics (low > high). *)
+(* ParseEnvelope(payload, ""): `end := 3 + int(dbLen)` (int arithmetic since 591fc4b) *)
 Definition parse_envelope (p : list N) : env_res :=
   match p with
   | m :: h :: l :: _ =>
       if (3 <? len_N p) && (m =? envelope_marker) then
         let dblen := h * 256 + l in
-        let w := (3 + dblen) mod 65536 in
-        if w <=? len_N p then
-          if w <? 3 then EnvPanic
-          else EnvOk (firstn (N.to_nat dblen) (skipn 3 p)) (skipn (N.to_nat w) p)
+        if 3 + dblen <=? len_N p then
+          EnvOk (firstn (N.to_nat dblen) (skipn 3 p)) (skipn (N.to_nat (3 + dblen)) p)
         else EnvOk [] p
       else EnvOk [] p
   | _ => EnvOk [] p
   end.
 
-Inductive dres := DPanic | DBad | DOk (k : kind) (db data : list N).
+Inductive dres := DBad | DOk (k : kind) (db data : list N).
 
 Definition kind_eqb (a b : kind) : bool :=
   match a, b with KRow, KRow | KRowNil, KRowNil | KCol, KCol => true | _, _ => false end.
@@ -109,13 +109,18 @@ Definition kind_eqb (a b : kind) : bool :=
 Definition hdr_n : nat := N.to_nat entry_header_size.
 Definition fhdr_n : nat := N.to_nat file_header_size.
 
-Inductive rd := RStop | RPanic | RSkip (rest : list N) | REmit (e : rentry) (rest : list N).
-Inductive lres := LPanic | LOk (es : list rentry) (corrupted : N).
-Inductive fres := FOutOfFuel | FErr | FPanic | FOk (es : list rentry) (corrupted : N).
+(* one readEntry call: clean/torn end | framing lost (counted, loop stops) | entry skipped
+   (counted, loop goes on with `rest`) | entry returned *)
+Inductive rd := RStop | RLost | RSkip (rest : list N) | REmit (e : rentry) (rest : list N).
+Inductive lres := LOk (es : list rentry) (corrupted : N).
+Inductive fres := FOutOfFuel | FErr | FOk (es : list rentry) (corrupted : N).
+(* outcome of an Append* call *)
+Inductive aout := AOk | AErr | APanic.
 
 Section Wal.
   Variable crc : list N -> N.          (* crc32.ChecksumIEEE *)
   Variable classify : list N -> cls.   (* msgpack.Unmarshal x2 + parseColumnarEntry *)
+  Variable maxp : N.                   (* MaxWALPayloadSize *)
 
   (* -- writer -- *)
   Definition frame (e : entry) : list N :=
@@ -127,6 +132,20 @@ Section Wal.
   Definition file_header : list N := wal_magic ++ be_encode 2 wal_version ++ [checksum_type].
 
   Definition file (es : list entry) : list N := file_header ++ frames es.
+
+  (* AppendRaw: len(payload) > Max => ErrPayloadTooLarge.  AppendRawWithMeta: envelope header +
+     payload > Max => ErrPayloadTooLarge (the size that goes on disk is what counts); then the
+     envelope header is built in a [258]byte array sliced with 3+len(db): a database name of
+     more than 255 bytes panics.  Nothing is written unless the outcome is AOk. *)
+  Definition append_outcome (o : op) : aout :=
+    if maxp <? len_N (e_payload (op_entry o)) then AErr
+    else match o with
+         | OpMeta _ db _ => if 255 <? len_N db then APanic else AOk
+         | OpRaw _ _ => AOk
+         end.
+
+  Definition accepted (ops : list op) : list op :=
+    filter (fun o => match append_outcome o with AOk => true | _ => false end) ops.
 
   (* Writer.writeEntry: after an entry is written, currentSize >= MaxSizeBytes starts a new
      file (the age trigger, 1 h by default, is not modelled).  The result lists the entries of
@@ -150,7 +169,6 @@ Section Wal.
   (* -- reader -- *)
   Definition decode_payload (p : list N) : dres :=
     match parse_envelope p with
-    | EnvPanic => DPanic
     | EnvOk db inner =>
         match classify inner with
         | CRow => DOk KRow [] inner
@@ -160,70 +178,75 @@ Section Wal.
         end
     end.
 
-  (* readEntry on the unread rest `s` of the file *)
-  Definition read_entry (s : list N) : rd :=
+  (* readEntry on the unread rest `s` of the file.  `lenient` = the behaviour before 591fc4b. *)
+  Definition read_entry_gen (lenient : bool) (s : list N) : rd :=
     if len_N s <? entry_header_size then RStop             (* io.EOF / io.ErrUnexpectedEOF *)
     else
       let len := be_decode (firstn 4 s) in
       let ts := be_decode (firstn 8 (skipn 4 s)) in
       let sum := be_decode (firstn 4 (skipn 12 s)) in
       let rest := skipn hdr_n s in
-      if max_payload <? len then RSkip rest                 (* ErrPayloadTooLarge; ReadAll `continue`s *)
-      else if len_N rest <? len then RSkip []               (* ReadFull consumed the tail, error *)
+      if maxp <? len then (if lenient then RSkip rest else RLost)   (* errFramingLost + ErrPayloadTooLarge *)
+      else if len_N rest <? len then RSkip []                        (* ReadFull consumed the tail, error *)
       else
         let p := firstn (N.to_nat len) rest in
         let rest' := skipn (N.to_nat len) rest in
         if crc p =? sum then
           match decode_payload p with
-          | DPanic => RPanic
           | DBad => RSkip rest'
           | DOk k db d => REmit (mkR ts k db d) rest'
           end
-        else RSkip rest'.
+        else (if lenient then RSkip rest' else RLost).               (* errFramingLost: checksum mismatch *)
+
+  Definition read_entry : list N -> rd := read_entry_gen false.
 
   (* the `for` loop of ReadAll *)
-  Fixpoint read_loop (fuel : nat) (s : list N) : option lres :=
+  Fixpoint read_loop_gen (lenient : bool) (fuel : nat) (s : list N) : option lres :=
     match fuel with
     | O => None
     | S f =>
-        match read_entry s with
+        match read_entry_gen lenient s with
         | RStop => Some (LOk [] 0)
-        | RPanic => Some LPanic
+        | RLost => Some (LOk [] 1)
         | RSkip rest =>
-            match read_loop f rest with
+            match read_loop_gen lenient f rest with
             | Some (LOk es c) => Some (LOk es (c + 1))
-            | x => x
+            | None => None
             end
         | REmit e rest =>
-            match read_loop f rest with
+            match read_loop_gen lenient f rest with
             | Some (LOk es c) => Some (LOk (e :: es) c)
-            | x => x
+            | None => None
             end
         end
     end.
 
-  Definition read_all (f : list N) : fres :=
+  Definition read_loop : nat -> list N -> option lres := read_loop_gen false.
+
+  Definition read_all_gen (lenient : bool) (f : list N) : fres :=
     if len_N f <? file_header_size then FOk [] 0                 (* "WAL file too short" *)
     else if negb (list_eqb (firstn 4 f) wal_magic) then FErr      (* invalid magic; version only warns *)
-    else match read_loop (S (length f)) (skipn fhdr_n f) with
+    else match read_loop_gen lenient (S (length f)) (skipn fhdr_n f) with
          | None => FOutOfFuel
-         | Some LPanic => FPanic
          | Some (LOk es c) => FOk es c
          end.
+
+  Definition read_all : list N -> fres := read_all_gen false.
+  (* the reader as it was before commit 591fc4b (`continue` after a lost frame) *)
+  Definition read_all_old : list N -> fres := read_all_gen true.
 
   (* -- recovery: every file in order; ReadAll error => file skipped; callback per entry
         (columnar always, row format only when Records != nil) -- *)
   Definition delivered (e : rentry) : bool :=
     match r_kind e with KRowNil => false | _ => true end.
 
-  Fixpoint recover (files : list (list N)) : option (list rentry) :=      (* None = panic *)
+  Fixpoint recover (files : list (list N)) : list rentry :=
     match files with
-    | [] => Some []
+    | [] => []
     | f :: r =>
         match read_all f with
-        | FPanic | FOutOfFuel => None
-        | FErr => recover r
-        | FOk es _ => match recover r with Some l => Some (filter delivered es ++ l) | None => None end
+        | FOk es _ => filter delivered es ++ recover r
+        | _ => recover r
         end
     end.
 
@@ -232,7 +255,7 @@ Section Wal.
   Definition emit (e : entry) : option rentry :=
     match decode_payload (e_payload e) with
     | DOk k db d => Some (mkR (e_ts e) k db d)
-    | _ => None
+    | DBad => None
     end.
 
   Definition emitted (es : list entry) : list rentry :=
@@ -249,13 +272,6 @@ Section Wal.
     | e :: r => if (length (frame e) <=? k)%nat then e :: prefix_within (k - length (frame e))%nat r else []
     end.
 
-  (* entries whose frame starts at an offset >= q of the frame area *)
-  Fixpoint drop_until (q : nat) (es : list entry) : list entry :=
-    match es with
-    | [] => []
-    | e :: r => match q with O => es | _ => drop_until (q - length (frame e))%nat r end
-    end.
-
   (* is byte i of `file es` one of the four length bytes of a frame? *)
   Fixpoint in_len_field_body (i : nat) (es : list entry) : bool :=
     match es with
@@ -267,26 +283,6 @@ Section Wal.
 
   Definition in_len_field (i : nat) (es : list entry) : bool :=
     if (i <? length file_header)%nat then false else in_len_field_body (i - length file_header)%nat es.
-
-  (* a byte range of the frame area that readEntry would accept if it ever started reading
-     at offset p and took `len` for the length *)
-  Definition valid_at_b (body : list N) (p len : nat) : bool :=
-    (p + 16 + len <=? length body)%nat && (N.of_nat len <=? max_payload) &&
-    (crc (firstn len (skipn (p + 16)%nat body)) =? be_decode (firstn 4 (skipn (p + 12)%nat body))) &&
-    match decode_payload (firstn len (skipn (p + 16)%nat body)) with DBad => false | _ => true end.
-
-  Fixpoint genuine_b (es : list entry) (p len : nat) : bool :=
-    match es with
-    | [] => false
-    | e :: r => match p with
-                | O => (len =? length (e_payload e))%nat
-                | _ => if (p <? length (frame e))%nat then false else genuine_b r (p - length (frame e))%nat len
-                end
-    end.
-
-  (* certificate that the log is NOT ghost-free *)
-  Definition ghost_cert (es : list entry) (p len : nat) : bool :=
-    valid_at_b (frames es) p len && negb (genuine_b es p len).
 End Wal.
 
 (* ---- subsequences ---------------------------------------------------------------------- *)
@@ -414,7 +410,6 @@ Definition obs_of_fres (t : class_table) (r : fres) : obs :=
   match r with
   | FOk es c => (0, map (obs_of_rentry t) es, c)
   | FErr => (1, [], 0)
-  | FPanic => (2, [], 0)
   | FOutOfFuel => (3, [], 0)
   end.
 
@@ -426,8 +421,8 @@ Definition mutate (k pos b : N) (f : list N) : list N :=
   | _ => f
   end.
 
-Definition model_read (t : class_table) (f : list N) : obs :=
-  obs_of_fres t (read_all crc32 (tab_classify t) f).
+Definition model_read (t : class_table) (maxp : N) (f : list N) : obs :=
+  obs_of_fres t (read_all crc32 (tab_classify t) maxp f).
 
 (* Recovery: callbacks in order (timestamps are not passed to the callbacks) *)
 Fixpoint set_nth {A} (i : nat) (x : A) (l : list A) : list A :=
@@ -436,11 +431,8 @@ Fixpoint set_nth {A} (i : nat) (x : A) (l : list A) : list A :=
   | _ :: r, O => x :: r
   | y :: r, S j => y :: set_nth j x r
   end.
-Definition model_recover (t : class_table) (files : list (list N)) : obs :=
-  match recover crc32 (tab_classify t) files with
-  | None => (2, [], 0)
-  | Some es => (0, map (fun r => (0, kind_N (r_kind r), r_db r, tab_fp t (r_data r))) es, 0)
-  end.
+Definition model_recover (t : class_table) (maxp : N) (files : list (list N)) : obs :=
+  (0, map (fun r => (0, kind_N (r_kind r), r_db r, tab_fp t (r_data r))) (recover crc32 (tab_classify t) maxp files), 0).
 
 (* ---- the property as an executable predicate on OBSERVED behaviour (oracle) ------------------ *)
 
@@ -459,7 +451,7 @@ Definition op_expect (deliv : bool) (t : class_table) (o : op) : list oentry :=
       match decode_payload (tab_classify t) p with
       | DOk KRowNil db d => if deliv then [] else [(ts, 0, db, tab_fp t d)]
       | DOk k db d => [(ts, kind_N k, db, tab_fp t d)]
-      | _ => []
+      | DBad => []
       end
   end.
 
@@ -493,16 +485,17 @@ Definition oracle_read (t : class_table) (ops : list op) (exp : list oentry) (fl
 
 Record wlog := mkLog {
   l_maxsize : N;                              (* Writer MaxSizeBytes the log was written with *)
+  l_maxp : N;                                 (* MaxWALPayloadSize of the build the log was run against *)
   l_literal : bool;                           (* true: l_files are given literally (malformed stream), no ops *)
   l_ops : list (N * N * bstr * bstr);         (* 0 AppendRaw/Append, 1 AppendRawWithMeta; timestamp; db; payload *)
-  l_hook : list bstr;                         (* payload the replication hook saw for each op *)
+  l_outcomes : list N;                        (* observed outcome of each append: 0 ok, 1 error, 2 panic *)
+  l_hook : list bstr;                         (* payload the replication hook saw for each accepted op *)
   l_files : list bstr;                        (* what the real Writer left on disk, rotation order *)
   l_classes : list (bstr * N * N);            (* decoding table of the real msgpack library *)
   l_entries : list (N * N * bstr * N);        (* interned observed entries *)
   l_obs : list (N * list N * N);              (* interned observations: status, entries, corrupted *)
   l_muts : list bstr;                         (* Reader.ReadAll runs, 10 hex digits each: file(1) kind(1) pos(3) byte(2) obs(3); in pieces *)
-  l_recs : list bstr;                         (* Recovery runs, same packing *)
-  l_certs : list (N * N * N)                  (* ghost certificates: file, offset in the frame area, length *)
+  l_recs : list bstr                          (* Recovery runs, same packing *)
 }.
 
 Definition log_ops (l : wlog) : list op :=
@@ -522,9 +515,10 @@ Fixpoint split_by {A} (sizes : list nat) (l : list A) : list (list A) :=
   | n :: r => firstn n l :: split_by r (skipn n l)
   end.
 
-(* the ops that ended up in each file, according to the writer model *)
+(* the ops the writer accepted, and which of them ended up in each file, according to the model *)
+Definition log_accepted (l : wlog) : list op := accepted (l_maxp l) (log_ops l).
 Definition log_groups (l : wlog) : list (list op) :=
-  let ops := log_ops l in
+  let ops := log_accepted l in
   split_by (map (@length entry) (rotate_split crc32 (l_maxsize l) file_header_size (map op_entry ops))) ops.
 
 Fixpoint lists_eqb (a b : list (list N)) : bool :=
@@ -534,12 +528,15 @@ Fixpoint lists_eqb (a b : list (list N)) : bool :=
   | _, _ => false
   end.
 
-(* tie of the writer: the bytes on disk and the payloads handed to the replication hook are the
-   model's *)
+Definition aout_N (a : aout) : N := match a with AOk => 0 | AErr => 1 | APanic => 2 end.
+
+(* tie of the writer: which appends are accepted, the bytes on disk and the payloads handed to
+   the replication hook are the model's *)
 Definition writer_ok (l : wlog) : bool :=
   if l_literal l then true
   else
-    let es := map op_entry (log_ops l) in
+    let es := map op_entry (log_accepted l) in
+    list_eqb (l_outcomes l) (map (fun o => aout_N (append_outcome (l_maxp l) o)) (log_ops l)) &&
     lists_eqb (map unhex (l_files l)) (writer_files crc32 (l_maxsize l) es) &&
     lists_eqb (map unhex (l_hook l)) (map e_payload es).
 
@@ -549,31 +546,12 @@ Definition unpack (r : N) : N * N * N * N * N :=      (* file, kind, pos, byte, 
 Definition mut_records (ss : list bstr) : list N :=
   flat_map (fun s => let l := of_bstr s in hexfields (S (length l / 10)) 10 l) ss.
 
-Definition no_panicb_ops (t : class_table) (ops : list op) : bool :=
-  forallb (fun o => match decode_payload (tab_classify t) (e_payload (op_entry o)) with DPanic => false | _ => true end) ops.
-
-(* the two classes of logs the guarded theorems exclude, as the check recognises them:
-   (1) substituted length byte + a Coq-verified ghost certificate for that file,
-   (2) the file holds an appended payload on which ParseEnvelope panics *)
-Definition explained (l : wlog) (t : class_table) (f : N) (ops : list op) (k pos : N) : bool :=
-  let es := map op_entry ops in
-  if no_panicb_ops t ops then
-    if k =? 2 then
-      if in_len_field crc32 (N.to_nat pos) es then
-        existsb (fun c => let '(cf, p, len) := c in
-                          if cf =? f then ghost_cert crc32 (tab_classify t) es (N.to_nat p) (N.to_nat len) else false) (l_certs l)
-      else false
-    else false
-  else true.
-
 Record verdict := mkVerdict {
   v_writer : bool;
   v_disagree : list N;        (* ReadAll runs where model and implementation differ *)
   v_oracle : list N;          (* ReadAll runs where the implementation violates the property *)
-  v_unexplained : list N;     (* ... and the input is not in an excluded class *)
   v_rdisagree : list N;       (* Recovery runs where model and implementation differ *)
-  v_roracle : list N;
-  v_runexplained : list N
+  v_roracle : list N
 }.
 
 Fixpoint bad_indices (l : list bool) (i : N) : list N :=
@@ -584,39 +562,34 @@ Fixpoint bad_indices (l : list bool) (i : N) : list N :=
 
 Definition check_log (l : wlog) : verdict :=
   let t := log_table l in
+  let maxp := l_maxp l in
   let files := map unhex (l_files l) in
   let groups := log_groups l in
   let entries := log_entries l in
   let expect := map (expected t) groups in
   let all := flat_map (expected_delivered t) groups in
-  let anypanic := existsb (fun g => negb (no_panicb_ops t g)) groups in
-  let read_bad (r : N) : bool * bool * bool :=       (* disagree, oracle fails, unexplained *)
+  let read_bad (r : N) : bool * bool :=       (* disagree, oracle fails *)
     let '(f, k, pos, b, o) := unpack r in
     let file := nth (N.to_nat f) files [] in
     let ops := nth (N.to_nat f) groups [] in
     let impl := log_obs l entries o in
-    let dis := negb (obs_eqb (model_read t (mutate k pos b file)) impl) in
+    let dis := negb (obs_eqb (model_read t maxp (mutate k pos b file)) impl) in
     let orf := if l_literal l then false
                else negb (oracle_read t ops (nth (N.to_nat f) expect []) (length file) k pos b (nth (N.to_nat pos) file 256) impl) in
-    (dis, orf, if orf then negb (explained l t f ops k pos) else false) in
-  let rec_bad (r : N) : bool * bool * bool :=
+    (dis, orf) in
+  let rec_bad (r : N) : bool * bool :=
     let '(f, k, pos, b, o) := unpack r in
     let file := nth (N.to_nat f) files [] in
-    let ops := nth (N.to_nat f) groups [] in
     let '(st, es, _) := log_obs l entries o in
-    let '(mst, mes, _) := model_recover t (set_nth (N.to_nat f) (mutate k pos b file) files) in
+    let '(mst, mes, _) := model_recover t maxp (set_nth (N.to_nat f) (mutate k pos b file) files) in
     let dis := negb ((st =? mst) && olist_eqb oentry_eqb_nots es mes) in
     let changed := (k =? 1) || ((k =? 2) && negb (b =? nth (N.to_nat pos) file 256)) in
     let orf := if l_literal l then false
                else if changed then negb ((st =? 0) && sublistb oentry_eqb_nots es all)
                else negb ((st =? 0) && olist_eqb oentry_eqb_nots es all) in
-    (dis, orf, if orf then (if anypanic then false else negb (explained l t f ops k pos)) else false) in
+    (dis, orf) in
   let rb := map read_bad (mut_records (l_muts l)) in
   let cb := map rec_bad (mut_records (l_recs l)) in
   mkVerdict (writer_ok l)
-    (bad_indices (map (fun x => fst (fst x)) rb) 0)
-    (bad_indices (map (fun x => snd (fst x)) rb) 0)
-    (bad_indices (map (fun x => snd x) rb) 0)
-    (bad_indices (map (fun x => fst (fst x)) cb) 0)
-    (bad_indices (map (fun x => snd (fst x)) cb) 0)
-    (bad_indices (map (fun x => snd x) cb) 0).
+    (bad_indices (map fst rb) 0) (bad_indices (map snd rb) 0)
+    (bad_indices (map fst cb) 0) (bad_indices (map snd cb) 0).
